@@ -335,6 +335,8 @@ def run(ctx):
                 describe=lambda c, e, g: 'invalid UTF-8 bytes %r not rejected uniformly: %r' % (c['data'], g))
     ctx.stat('invalid_utf8_samples', len(inv))
     ctx.sample_safe(lambda: {'bytes': bcases[0]['data'], 'encoding': bcases[0]['encoding'], 'spec': b_exp[0], 'implementation_outcomes_over_all_partitions': b_got[0]})
+    # the rbql-js stream reader under the same statement (mixed line endings, all chunkings)
+    __import__('importlib').import_module('props.c12js').run(ctx, THEOREM)
 
 
 def single_table(c, text):
@@ -350,6 +352,8 @@ def single_table(c, text):
 
 
 def replay(ctx, case):
+    if case.get('part') == 'c12js' or case.get('mode') in ('from', 'push') or 'modes' in case:
+        return __import__('importlib').import_module('props.c12js').replay(ctx, case)
     kind = case.get('kind')
     if kind in ('all', 'bytes_all'):
         exp, args, model, have, _ = expected_for([case], ctx)
